@@ -85,4 +85,85 @@ theorem reported_true_refuted :
   have := hall witnessReported ⟨28, 4⟩ ⟨32, 16⟩ (by decide) (by decide)
   exact absurd this.2 (by decide)
 
+/-! ## What does hold, for every type of the stated class (any size, any nesting depth) -/
+
+/-- **Reported sizes are true sizes (partial).**  If no struct strictly below `t` needs tail padding
+    under rule `m`, then whatever `get_type_layout` returns has the reference alignment, and its size
+    rounded up to that alignment (what `check_layout` reports) is the reference size.
+    Partial: the hypothesis `noInnerTailPad` excludes exactly the types on which the pinned
+    `get_type_layout` is wrong (`reported_true_refuted`). -/
+theorem get_matches_spec_partial (m : Mode) (t : Ty) (l : Layout) (hw : wf t = true)
+    (hp : noInnerTailPad m t = true) (h : get m t = .ok l) :
+    l.align = align m t ∧ roundUp l.size l.align = size m t := by
+  obtain ⟨a, s⟩ := get_spec m t l hw hp h
+  exact ⟨a, by rw [a, s, roundUp_raw m t hw]⟩
+
+/-- flat structs (members are scalars, vectors, enums): the sizes are always the true ones -/
+theorem get_matches_spec_flat (m : Mode) (ms : Tys) (l : Layout) (hw : wf (.struct ms) = true)
+    (hf : flat ms = true) (h : get m (.struct ms) = .ok l) :
+    l.align = align m (.struct ms) ∧ roundUp l.size l.align = size m (.struct ms) :=
+  get_matches_spec_partial m (.struct ms) l hw (closedAll_of_flat m ms hf) h
+
+/-- on the class without inner tail padding `check_layout` decides exactly "the two reference sizes are
+    equal", and what it reports on rejection are the reference sizes and alignments -/
+theorem check_decides_sizes_partial (t : Ty) (r : Option (Layout × Layout)) (hw : wf t = true)
+    (hh : noInnerTailPad .hlsl t = true) (hm : noInnerTailPad .metal t = true)
+    (h : checkOne t = .ok r) :
+    r = if size .hlsl t ≠ size .metal t then
+          some (⟨size .hlsl t, align .hlsl t⟩, ⟨size .metal t, align .metal t⟩) else none :=
+  checkOne_spec hw hh hm h
+
+/-- **rejected ⇒ the reported sizes are the true sizes (partial: no inner tail padding)** -/
+theorem reported_true_partial (t : Ty) (lh lm : Layout) (hw : wf t = true)
+    (hh : noInnerTailPad .hlsl t = true) (hm : noInnerTailPad .metal t = true)
+    (h : checkAll [t] = .mismatch 0 lh lm) :
+    lh = ⟨size .hlsl t, align .hlsl t⟩ ∧ lm = ⟨size .metal t, align .metal t⟩ := by
+  simp only [checkAll, checkFrom] at h
+  split at h
+  · cases h
+  · cases h
+  · rename_i a b hc
+    have := checkOne_spec hw hh hm hc
+    split at this
+    · cases this; cases h; exact ⟨rfl, rfl⟩
+    · cases this
+  · cases h
+
+/-- **Soundness (partial).**  For every list of element types: if `check_layout` accepts, then every
+    type of the list that (a) has no inner tail padding under either rule and (b) is laid out without
+    any padding by HLSL structured-buffer packing has the same total size and the same offset for
+    every field, recursively, under both rules.
+    Partial: (a) and (b) are needed on the pinned tree — `check_unsound_nested`/`check_unsound_array`
+    violate (a), `check_unsound_offsets` violates (b). -/
+theorem check_sound_partial (ts : List Ty) (h : checkAll ts = .ok) (t : Ty) (ht : t ∈ ts)
+    (hw : wf t = true) (hh : noInnerTailPad .hlsl t = true) (hm : noInnerTailPad .metal t = true)
+    (hd : hlslDense t) : Agree t := by
+  have hc := checkFrom_ok ts 0 h t ht
+  have := checkOne_spec hw hh hm hc
+  have hs : size .hlsl t = size .metal t := by
+    by_cases e : size .hlsl t = size .metal t
+    · exact e
+    · simp only [ne_eq, e, not_false_eq_true, if_true] at this; cases this
+  exact ⟨hs, dense_agree t hw hd (by rw [← hs]; exact hd)⟩
+
+/-- without vectors (scalars, enums, arrays and structs of them, to any depth) the two rule sets give
+    the same layout, whatever the checker says -/
+theorem vector_free_agree (t : Ty) (hv : vectorFree t = true) : Agree t :=
+  ⟨(vectorFree_same t hv).2.1, (vectorFree_same t hv).2.2⟩
+
+/-! ### non-vacuity: a depth-3 type with arrays and vectors satisfies every hypothesis of
+    `check_sound_partial` and is accepted -/
+private def d : Ty := .scalar .Float64
+private def f4 : Ty := .vec .Float32 4
+private def f2 : Ty := .vec .Float32 2
+private def deep : Ty :=
+  S [f4, S [f2, f2, S [.vec .Float64 2, d, .enum .Int32, f, f2, d]], .arr f4 3, .arr (S [d, d]) 2, d, d]
+
+example : wf deep = true ∧ noInnerTailPad .hlsl deep = true ∧ noInnerTailPad .metal deep = true ∧
+    hlslDense deep ∧ checkAll [f, deep] = .ok := by unfold hlslDense; decide
+
+/-- and a rejected one satisfies the hypotheses of `reported_true_partial` -/
+example : wf (S [f, f2]) = true ∧ noInnerTailPad .hlsl (S [f, f2]) = true ∧
+    checkAll [S [f, f2]] = .mismatch 0 ⟨12, 4⟩ ⟨16, 8⟩ := by decide
+
 end RsslVerif.Thm.C19
